@@ -302,8 +302,9 @@ _prev_lookup_http1 = _lib.lookup_function
 
 
 def _lookup_function_http1(o):
-    r = _prev_lookup_http1(o)
-    if r is None and isinstance(o, _types.BuiltinMethodType) and isinstance(getattr(o, "__self__", None), re.Pattern) and o.__name__ in ("match", "fullmatch"):
+    # (checked before delegating: the import order of the libx_* modules is not fixed, libx_tools may sit below or above)
+    r = None
+    if isinstance(o, _types.BuiltinMethodType) and isinstance(getattr(o, "__self__", None), re.Pattern) and o.__name__ in ("match", "fullmatch"):
         p = o.__self__
         exact = _exact_match(o.__name__, p.pattern, p.flags & ~re.UNICODE.value)
         if exact is not None:
@@ -319,7 +320,7 @@ def _lookup_function_http1(o):
 
             model.__name__ = exact.__name__
             return model
-    return r
+    return _prev_lookup_http1(o)
 
 
 _FALLBACK = {}
